@@ -479,3 +479,48 @@ VARIANTS += [
             '        return cls(cat_id=UUID.random(), parent_id=UUID.ZERO, pref_type=FolderType.NONE, name=label,\n'
             '                   type=AssetType.CATEGORY)\n'},
 ]
+
+# ---------------------------------------------------------------------- round 5 (iterator-style rewrites)
+_WEIGHTS_BODY_OLD = """        influence_list = []
+        for _ in range(cls.INFLUENCE_LIMIT):
+            joint_idx = reader.read_bytes(1)[0]
+            if joint_idx == cls.INFLUENCE_TERM:
+                break
+            weight = reader.read(se.U16, ctx=ctx) / 0xFFff
+            influence_list.append(VertexWeight(joint_idx, weight))
+        return influence_list
+"""
+
+VARIANTS += [
+    {"name": "R4 range-stepped windows wider than the step", "expect": "C20.R4",
+     "edits": [{"file": XFER, "old": _SENDER_LOOP_OLD,
+                "new": "            for chunk_num, begin in enumerate(range(0, len(data), MAX_CHUNK_SIZE)):\n"
+                       "                self.chunks[chunk_num] = data[begin:begin + MAX_CHUNK_SIZE + 1]\n"}]},
+    {"name": "R4 range stop taken from the payload before the prefix", "expect": "C20.R4",
+     "edits": [{"file": XFER, "old": _PREFIX_COMMENT, "new": "            payload_len = len(data)\n" + _PREFIX_COMMENT},
+               {"file": XFER, "old": _SENDER_LOOP_OLD,
+                "new": "            for chunk_num, begin in enumerate(range(0, payload_len, MAX_CHUNK_SIZE)):\n"
+                       "                self.chunks[chunk_num] = data[begin:begin + MAX_CHUNK_SIZE]\n"}]},
+    {"name": "P R4 range-stepped windows over the prefixed buffer", "expect": "silent",
+     "edits": [{"file": XFER, "old": _SENDER_LOOP_OLD,
+                "new": "            for begin in range(0, len(data), MAX_CHUNK_SIZE):\n"
+                       "                self.chunks[begin // MAX_CHUNK_SIZE] = data[begin:begin + MAX_CHUNK_SIZE]\n"}]},
+    {"name": "R7 sentinel iterator consumed without a count bound", "file": MESH, "expect": "C20.R7",
+     "old": _WEIGHTS_BODY_OLD,
+     "new": "        idx_iter = iter(lambda: reader.read_bytes(1)[0], cls.INFLUENCE_TERM)\n"
+            "        return [VertexWeight(j, reader.read(se.U16, ctx=ctx) / 0xFFff) for j in idx_iter]\n"},
+    {"name": "R7 islice bound differs from the writer's elision count", "file": MESH, "expect": "C20.R7",
+     "old": _WEIGHTS_BODY_OLD,
+     "new": "        idx_iter = iter(lambda: reader.read_bytes(1)[0], cls.INFLUENCE_TERM)\n"
+            "        return [VertexWeight(j, reader.read(se.U16, ctx=ctx) / 0xFFff)\n"
+            "                for j in itertools.islice(idx_iter, cls.INFLUENCE_LIMIT - 1)]\n"},
+    {"name": "P R7 sentinel iterator bounded by islice at the limit", "file": MESH, "expect": "silent",
+     "old": _WEIGHTS_BODY_OLD,
+     "new": "        out = []\n"
+            "        for j in itertools.islice(iter(lambda: reader.read_bytes(1)[0], cls.INFLUENCE_TERM), cls.INFLUENCE_LIMIT):\n"
+            "            out.append(VertexWeight(j, reader.read(se.U16, ctx=ctx) / 0xFFff))\n        return out\n"},
+    {"name": "R3 EAFP reader keeps the wire key", "file": SCHEMA, "expect": "C20.R3",
+     "old": "            if key in fields:\n                field: dataclasses.Field = fields[key]\n                key = field.name\n",
+     "new": "            try:\n                field: dataclasses.Field = fields[key]\n            except KeyError:\n                continue\n"
+            "            if True:\n"},
+]
